@@ -456,6 +456,7 @@ class PrecipitateModel (PrecipitateBase):
             Y.precipitateDensity[0,p] = self.PBM[p].ZeroMomentFromN(x[p])
             #If no precipitates, then avgR, avgAR, precDens, fConc and fBeta for phase p is all 0
             if Y.precipitateDensity[0,p] < self.constraints.minNucleateDensity:
+                Y.precipitateDensity[0,p] = 0
                 Y.Ravg[0,p] = 0
                 Y.ARavg[0,p] = 0
                 Y.fconc[0,p] = np.zeros(Y.fconc[0,p].shape)
